@@ -237,81 +237,162 @@ pub fn run(args: &Args) {
     out.finish(&args.summary, &[]);
 }
 
-/// Forced schedules for "never touches the backend after calling close()": thread T1 reads a
-/// table through a read transaction (cache 0, so every page is fetched from the backend) and is
-/// parked at its n-th `backend.read` pause point - after the closed-latch test, before the call -
-/// while T2 drops the Database. Whatever the order the two threads are then released in, the
-/// backend must see no call after its close().
+/// Forced schedules for "never touches the backend after calling close()": thread T1 reads
+/// every table through a read transaction and is parked at the n-th occurrence of each backend
+/// pause point it passes (`backend.read`, `backend.write_best_effort`, ... - after the
+/// closed-latch test, before the call into the backend) while T2 drops the Database. Whatever the
+/// order the two threads are then released in, the backend must see no call after - or
+/// overlapping - its close().
+///
+/// The state the Database is in when it is dropped matters (what the close has to flush decides
+/// which locks it takes before it reaches the backend), so each variant is built from scratch:
+///  * `clean`      - a reader on a cleanly committed database, cache 0 (every page is read from the backend)
+///  * `buffered`   - small cache, committed pages of non-durable commits still in the write buffer:
+///                   the reader evicts them with best-effort writes under cache pressure
+///  * `needs-repair` - as `buffered`, after a write transaction was abandoned by a panic: the close
+///                   neither commits nor flushes
 fn close_race(out: &mut Out, clean: &[u8], cfg: &Cfg, thorough: bool) {
     use std::time::Duration;
-    let cfg0 = Cfg { page: cfg.page, region: cfg.region, cache: 0 };
-    // number of backend reads a full table scan makes
-    let total = {
-        let ctl = crate::sched::Ctl::new();
-        let c2 = ctl.clone();
-        let b = new_backend(clean);
-        let db = open_db(b.clone(), &cfg0).unwrap();
-        let rt = db.begin_read().unwrap();
-        redb::verif::verif_set_pause_hook(Some(Arc::new(move |p| c2.hook(p))));
-        let n = std::thread::scope(|s| {
-            std::thread::Builder::new().name("T1".into()).spawn_scoped(s, || { let _ = read_all(&rt); }).unwrap().join().ok();
-            ctl.st.lock().unwrap().points_of_first.iter().filter(|p| *p == "backend.read").count()
-        });
-        redb::verif::verif_set_pause_hook(None);
-        drop(rt);
-        drop(db);
-        n
-    };
-    let stride = if thorough { 1 } else { (total / 12).max(1) };
-    let mut k = 1;
-    while k <= total {
-        let ctl = crate::sched::Ctl::new();
-        ctl.st.lock().unwrap().plan = Some(("T1".into(), "backend.read".into(), k));
-        let c2 = ctl.clone();
-        let b = new_backend(clean);
-        let db = open_db(b.clone(), &cfg0).unwrap();
-        let rt = db.begin_read().unwrap();
-        redb::verif::verif_set_pause_hook(Some(Arc::new(move |p| c2.hook(p))));
-        let name = format!("close-race-read{k}of{total}");
-        let (res, blocked) = std::thread::scope(|s| {
-            let done1 = Arc::new(std::sync::atomic::AtomicBool::new(false));
-            let d1 = done1.clone();
-            let rt = &rt;
-            let h1 = std::thread::Builder::new().name("T1".into()).spawn_scoped(s, move || {
-                let r = catch_unwind(AssertUnwindSafe(|| read_all(rt).map(|m| m.digest())));
-                d1.store(true, Ordering::SeqCst);
-                r
-            }).unwrap();
-            let parked = ctl.wait_parked_or(&|| done1.load(Ordering::SeqCst), Duration::from_secs(2));
-            let done2 = Arc::new(std::sync::atomic::AtomicBool::new(false));
-            let d2 = done2.clone();
-            let h2 = std::thread::Builder::new().name("T2".into()).spawn_scoped(s, move || {
-                drop(db);
-                d2.store(true, Ordering::SeqCst);
-            }).unwrap();
-            let deadline = std::time::Instant::now() + Duration::from_millis(150);
-            while parked && !done2.load(Ordering::SeqCst) && std::time::Instant::now() < deadline {
-                std::thread::sleep(Duration::from_millis(1));
+    #[derive(Clone, Copy, PartialEq, Debug)]
+    enum Variant {
+        Clean,
+        Buffered,
+        NeedsRepair,
+    }
+    let build = |v: Variant| -> (MemBackend, redb::Database) {
+        match v {
+            Variant::Clean => {
+                let b = new_backend(clean);
+                let db = open_db(b.clone(), &Cfg { page: cfg.page, region: cfg.region, cache: 0 }).unwrap();
+                (b, db)
             }
-            let blocked = parked && !done2.load(Ordering::SeqCst);
-            ctl.release();
-            let r1 = h1.join();
-            let _ = h2.join();
-            let res = match r1 {
-                Ok(Ok(Ok(d))) => format!("served:{d}"),
-                Ok(Ok(Err(e))) => format!("err:{}", e.split(['(', ' ', '{']).next().unwrap_or("")),
-                _ => "panic".to_string(),
-            };
-            (format!("{res}:parked={}", u8::from(parked)), blocked)
-        });
-        redb::verif::verif_set_pause_hook(None);
-        drop(rt);
-        out.line(&format!("bk scenario {name} => {res}:close-waited={}", u8::from(blocked)));
-        if res.starts_with("panic") {
-            out.oracle_fail(format!("contract-panic|{name}: panic in a reader racing with the close"));
+            Variant::Buffered | Variant::NeedsRepair => {
+                let b = new_backend(&[]);
+                let small = Cfg { page: cfg.page, region: cfg.region, cache: cfg.page * 24 };
+                let db = open_db(b.clone(), &small).unwrap();
+                let big = vec![7u8; cfg.page / 2];
+                {
+                    let txn = db.begin_write().unwrap();
+                    {
+                        let mut t = txn.open_table(T0).unwrap();
+                        for k in 0..40u64 {
+                            t.insert(k, &big[..]).unwrap();
+                        }
+                    }
+                    txn.commit().unwrap();
+                }
+                for round in 0..3u64 {
+                    let mut txn = db.begin_write().unwrap();
+                    txn.set_durability(redb::Durability::None).unwrap();
+                    {
+                        let mut t = txn.open_table(T0).unwrap();
+                        for k in 0..30u64 {
+                            t.insert(1000 + round * 100 + k, &big[..]).unwrap();
+                        }
+                    }
+                    txn.commit().unwrap();
+                }
+                if v == Variant::NeedsRepair {
+                    let _ = catch_unwind(AssertUnwindSafe(|| {
+                        let txn = db.begin_write().unwrap();
+                        let mut t = txn.open_table(T0).unwrap();
+                        t.insert(1, &big[..]).unwrap();
+                        panic!("abandon the write transaction");
+                    }));
+                }
+                (b, db)
+            }
         }
-        out.count("close_race_schedules");
-        finish_scenario(out, &name, &b, true, false);
-        k += stride;
+    };
+    for variant in [Variant::Clean, Variant::Buffered, Variant::NeedsRepair] {
+        // the backend pause points a full scan passes in this variant
+        let points: Vec<String> = {
+            let ctl = crate::sched::Ctl::new();
+            let c2 = ctl.clone();
+            let (_b, db) = build(variant);
+            let rt = db.begin_read().unwrap();
+            redb::verif::verif_set_pause_hook(Some(Arc::new(move |p| c2.hook(p))));
+            std::thread::scope(|s| {
+                std::thread::Builder::new().name("T1".into()).spawn_scoped(s, || { let _ = read_all(&rt); }).unwrap().join().ok();
+            });
+            redb::verif::verif_set_pause_hook(None);
+            drop(rt);
+            drop(db);
+            let p = ctl.st.lock().unwrap().points_of_first.iter().filter(|p| p.starts_with("backend.")).cloned().collect();
+            p
+        };
+        let mut occ: std::collections::BTreeMap<String, usize> = Default::default();
+        let mut placements: Vec<(String, usize)> = vec![];
+        for p in &points {
+            let n = occ.entry(p.clone()).or_insert(0);
+            *n += 1;
+            placements.push((p.clone(), *n));
+        }
+        for (p, n) in occ.iter() {
+            out.add(&format!("close_race_{variant:?}_{p}"), *n as u64);
+        }
+        // quick: about a dozen placements per pause point kind, always including the first and last
+        let mut chosen: Vec<(String, usize)> = vec![];
+        for (kind, total) in occ.iter() {
+            let stride = if thorough { 1 } else { (*total / 12).max(1) };
+            let mut k = 1;
+            while k <= *total {
+                chosen.push((kind.clone(), k));
+                k += stride;
+            }
+            if !chosen.contains(&(kind.clone(), *total)) {
+                chosen.push((kind.clone(), *total));
+            }
+        }
+        let _ = placements;
+        for (point, k) in chosen {
+            let ctl = crate::sched::Ctl::new();
+            ctl.st.lock().unwrap().plan = Some(("T1".into(), point.clone(), k));
+            let c2 = ctl.clone();
+            let (b, db) = build(variant);
+            let rt = db.begin_read().unwrap();
+            redb::verif::verif_set_pause_hook(Some(Arc::new(move |p| c2.hook(p))));
+            let name = format!("close-race-{variant:?}-{}-{k}of{}", point.trim_start_matches("backend."), occ[&point]);
+            let (res, blocked) = std::thread::scope(|s| {
+                let done1 = Arc::new(std::sync::atomic::AtomicBool::new(false));
+                let d1 = done1.clone();
+                let rt = &rt;
+                let h1 = std::thread::Builder::new().name("T1".into()).spawn_scoped(s, move || {
+                    let r = catch_unwind(AssertUnwindSafe(|| read_all(rt).map(|m| m.digest())));
+                    d1.store(true, Ordering::SeqCst);
+                    r
+                }).unwrap();
+                let parked = ctl.wait_parked_or(&|| done1.load(Ordering::SeqCst), Duration::from_secs(2));
+                let done2 = Arc::new(std::sync::atomic::AtomicBool::new(false));
+                let d2 = done2.clone();
+                let h2 = std::thread::Builder::new().name("T2".into()).spawn_scoped(s, move || {
+                    let r = catch_unwind(AssertUnwindSafe(move || drop(db)));
+                    d2.store(true, Ordering::SeqCst);
+                    r.is_ok()
+                }).unwrap();
+                let deadline = std::time::Instant::now() + Duration::from_millis(150);
+                while parked && !done2.load(Ordering::SeqCst) && std::time::Instant::now() < deadline {
+                    std::thread::sleep(Duration::from_millis(1));
+                }
+                let blocked = parked && !done2.load(Ordering::SeqCst);
+                ctl.release();
+                let r1 = h1.join();
+                let drop_ok = h2.join().unwrap_or(false);
+                let res = match r1 {
+                    Ok(Ok(Ok(d))) => format!("served:{d}"),
+                    Ok(Ok(Err(e))) => format!("err:{}", e.split(['(', ' ', '{']).next().unwrap_or("")),
+                    _ => "panic".to_string(),
+                };
+                (format!("{res}:parked={}:drop-ok={}", u8::from(parked), u8::from(drop_ok)), blocked)
+            });
+            redb::verif::verif_set_pause_hook(None);
+            drop(rt);
+            out.line(&format!("bk scenario {name} => {res}:close-waited={}", u8::from(blocked)));
+            if res.starts_with("panic") || res.contains("drop-ok=0") {
+                out.oracle_fail(format!("contract-panic|{name}: panic in a reader racing with the close, or in the close itself ({res})"));
+            }
+            out.count("close_race_schedules");
+            finish_scenario(out, &name, &b, true, false);
+        }
     }
 }
